@@ -49,3 +49,13 @@ func init() {
     f.write("\t}\n}\n")
 subprocess.check_call(["gofmt", "-w", V + "/checker/props/anchors_frozen.go"])
 print(len(d["funcs"]), "function anchors,", len(d["fields"]), "field anchors")
+
+# anchor files of the properties (scope of the idiom sweeps)
+out = ['package props\n', '// Anchor files of each property as given in properties.jsonl (generated: tools/gen_anchors.py).\n', 'var propAnchorFiles = map[string][]string{\n']
+for l in open(V + "/properties.jsonl"):
+    if l.strip():
+        d = json.loads(l)
+        out.append('\t%s: {%s},\n' % (json.dumps(d['id']), ', '.join(json.dumps(f) for f in d['anchors']['files'])))
+out.append('}\n')
+open(V + "/checker/props/anchor_files.go", "w").write(''.join(out))
+subprocess.check_call(["gofmt", "-w", V + "/checker/props/anchor_files.go"])
